@@ -419,5 +419,5 @@ def families(tier, seed):
     if os.environ.get("VERIF_C18_ROTATION_ALL") == "1":
         return [rt_all, brute, rigid]  # (row-index variants are not needed for this diagnostic family)
     from ..motlgen import with_row_index_kinds
-    brute_idx = with_row_index_kinds(brute, select=lambda c: c[2] == 2 and c[3] == 1.0, expect=("neighbour-id", "distance-value", "offset-particle-frame", "angular-distance"))
+    brute_idx = with_row_index_kinds(brute, select=lambda c: c[2] == 2 and c[3] == 1.0, kinds=("gapped", "reversed", "repeated"), expect=("neighbour-id", "distance-value", "offset-particle-frame", "angular-distance"))
     return [brute, brute_idx, rigid]
